@@ -42,6 +42,12 @@ type Case interface {
 	KnownFinding(kf *known.File, property string, v *Verdict) string
 }
 
+// Prober is optionally implemented by cases whose oracle counts rare conditions it met while judging a run
+// ("this branch of the reference model was reached"); the counts go into the evidence as probe:<name>.
+type Prober interface {
+	Probes(res *simpool.Result) map[string]int
+}
+
 type Spec struct {
 	Property    string
 	Tier        string
@@ -275,6 +281,11 @@ func RunCollect(spec Spec) (int, *evidence.Evidence) {
 						break
 					}
 					v := c.Judge(res)
+					if pr, ok := c.(Prober); ok {
+						for pk, pv := range pr.Probes(res) {
+							counters.Add("probe:"+pk, pv)
+						}
+					}
 					if v == nil {
 						continue
 					}
